@@ -748,6 +748,22 @@ def run(ctx, prop):
                         corpus_fail.append(dict(ce))
                         break
                 MU.clear_engine_cache()
+        elif ce.get('class') == 'mode-argument-ignored-after-an-earlier-read-of-the-file':
+            from tally import merchant_engine as ME, merchant_utils as MU
+            with Budget() as b:
+                path = b.write('replay.rules', ce['rules'])
+                txn = untxn(ce['txn'])
+                for order in (('t',), ('r',), ('t', 'r')):
+                    MU.clear_engine_cache()
+                    for first in order:
+                        (MU.get_transforms(path) if first == 't' else MU.get_all_rules(path))
+                    (m, c, s_, info), _, _ = normalize_via_file(path, 'most_specific', txn, clear=False)
+                    MU.clear_engine_cache()
+                    t2, _ = transformed_txn(txn, ME.parse_merchants(ce['rules'], 'most_specific').transforms)
+                    res = ME.parse_merchants(ce['rules'], 'most_specific').match(copy.deepcopy(t2))
+                    if res.category and (m, c, s_) != (res.merchant, res.category, res.subcategory):
+                        corpus_fail.append(dict(ce, observed=[m, c, s_]))
+                        break
         elif 'sequence' in ce and 'file' in ce:
             replay_seq = (ce['file'], [untxn(x) for x in ce['sequence']], ce.get('mode', 'first_match'))
         elif 'file' in ce:
@@ -937,6 +953,43 @@ def run(ctx, prop):
         k = sum(1 for e in c['evs'] if e['hit'])
         hist[k] = hist.get(k, 0) + 1
     ctx.notes['matching_rules_histogram'] = hist
+    if prop == 'C09' and not ctx.replay:
+        # the rule MODE is an argument of every reader of the file: the same unchanged file asked for under the default (first-match) mode
+        # first - `get_transforms(path)`, `get_all_rules(path)` - and then under most_specific must classify as most_specific
+        from tally import merchant_engine as ME, merchant_utils as MU
+        nmode = 0
+        with Budget() as b:
+            for i in range(40 if ctx.quick else 1200):
+                txn = G.gen_txn(r)
+                words = [w for w in txn['description'].upper().split() if w.isalnum()]
+                if not words:
+                    continue
+                f = G.gen_rules_file(r, txn, n=r.choice([1, 2, 3]), force_ties=True)
+                w = r.choice(words)
+                f = dict(f, rules=[{'name': 'General', 'match': f'contains("{w}")', 'category': 'ByOrder', 'subcategory': 'G'},
+                                   {'name': 'Specific', 'match': f'contains("{w}") and amount == amount', 'category': 'BySpecificity'}] + f['rules'])
+                text = G.render_rules(f)
+                path = b.write(f'mode{i % 4}.rules', text)
+                try:
+                    MU.clear_engine_cache()
+                    for first in r.choice([('t',), ('r',), ('t', 'r'), ('r', 't')]):
+                        (MU.get_transforms(path) if first == 't' else MU.get_all_rules(path))
+                    (m, c, s_, info), _, _ = normalize_via_file(path, 'most_specific', txn, clear=False)
+                    t2, _ = transformed_txn(txn, ME.parse_merchants(text, 'most_specific').transforms)
+                    res = ME.parse_merchants(text, 'most_specific').match(copy.deepcopy(t2))
+                except Exception as e:
+                    if type(e).__name__ in ('TypeError', 'AttributeError', 'StopIteration', 'error', 'ValueError'):
+                        continue
+                    raise
+                finally:
+                    MU.clear_engine_cache()
+                nmode += 1
+                want = (res.merchant, res.category, res.subcategory) if res.category else None
+                if want and (m, c, s_) != want:
+                    prop_fail.append({'class': 'mode-argument-ignored-after-an-earlier-read-of-the-file', 'rules': text, 'txn': jtxn(txn), 'mode': 'most_specific',
+                                      'file': f, 'observed': [m, c, s_], 'required (a fresh most_specific engine)': list(want)})
+                    break
+        ctx.notes['same_file_read_under_the_default_mode_first_then_most_specific'] = nmode
     ctx.notes['runs_of_near_duplicate_transactions_through_one_engine (each answer vs a fresh engine)'] = nbatch
     ctx.notes['files_with_repeated_rule_names'] = sum(1 for f, _, _ in metas if len({x['name'] for x in f['rules']}) < len(f['rules']))
     for c, (f, txn, mode) in list(zip(cases, metas))[:3]:
